@@ -5,7 +5,7 @@
 //
 //   case <id>                      -> "case <id>"      (flushes a pending history first)
 //   cfg <fn> <key> <err>           -> "ok" | "bad-op"
-//        fn : inc | acc | addkey | echo1 | echo2 | echo3 | echov | even | neg | negecho | addb | pair | nest
+//        fn : inc | acc | addkey | echo1 | echo2 | echo3 | echov | even | neg | negecho | eguard | addb | pair | nest
 //             inc     stateless           out = v + 1
 //             acc     stateful            out = running sum of the ticks
 //             addkey  key-consuming       out = v + 1000 * key                       (needs key = 1)
@@ -15,6 +15,7 @@
 //             even    sometimes invalid   out = v only when v is even
 //             neg     throwing            throws on v < 0, else out = running sum
 //             negecho throwing + self-scheduling in ONE child: thrower node ranked before an echo2 node
+//             eguard  the same nodes with the echo2 node ranked BEFORE the thrower
 //             addb    broadcast argument  out = v + z            (z: a TS<Int> bound whole to every child)
 //             pair    two multiplexed dictionaries with differing key sets: out = a[k] + 1000 * b[k]
 //             nest    nested map: elements are TSD<Int,TS<Int>>, the child is map_(inc, element)
@@ -262,6 +263,29 @@ namespace
             return wire<HSum2>(w, g, e);
         }
     };
+    // the SAME nodes, the self-scheduling node ranked BEFORE the thrower: in a failing cycle the echo node has already
+    // run (ticked, armed its wake-up) when the guard throws; the wake-up must survive the captured failure
+    struct GEGuard
+    {
+        static constexpr auto name = "hgv_g_eguard";
+        static P compose(Wiring &w, P ts)
+        {
+            auto e = wire<HEcho<2>>(w, ts);
+            auto g = wire<HGuard>(w, ts);
+            return wire<HSum2>(w, g, e);
+        }
+    };
+    struct GEGuardK
+    {
+        static constexpr auto name = "hgv_k_eguard";
+        static P compose(Wiring &w, KP key, P ts)
+        {
+            wire<HTag>(w, key);
+            auto e = wire<HEcho<2>>(w, ts);
+            auto g = wire<HGuard>(w, ts);
+            return wire<HSum2>(w, g, e);
+        }
+    };
     struct GNegEchoK
     {
         static constexpr auto name = "hgv_k_negecho";
@@ -441,7 +465,7 @@ namespace
 
     bool fn_known(const std::string &f)
     {
-        static const std::set<std::string> k{"inc", "acc", "addkey", "echo1", "echo2", "echo3", "echov", "even", "neg", "negecho", "addb", "pair", "nest",
+        static const std::set<std::string> k{"inc", "acc", "addkey", "echo1", "echo2", "echo3", "echov", "even", "neg", "negecho", "eguard", "addb", "pair", "nest",
                                            "evenref", "flagref", "bflagref", "swref"};
         return k.count(f) > 0;
     }
@@ -692,6 +716,7 @@ namespace
                             : cfg.fn == "even"    ? unary<HEven, 5>(cfg.key)
                             : cfg.fn == "neg"     ? unary<HNeg, 6>(cfg.key)
                             : cfg.fn == "negecho" ? (cfg.key ? fn<GNegEchoK>() : fn<GNegEcho>())
+                            : cfg.fn == "eguard"  ? (cfg.key ? fn<GEGuardK>() : fn<GEGuard>())
                             : cfg.fn == "evenref" ? (cfg.key ? fn<GEvenRefK>() : fn<GEvenRef>())
                             : cfg.fn == "swref"   ? (cfg.key ? fn<GSwRefK>() : fn<GSwRef>())
                                                   : fn<GAddKey>();
